@@ -60,7 +60,9 @@ def main():
             failed = r.returncode!=0
             ok = (failed if e['expect']=='fail' else not failed)
             if ok and e['expect']=='fail' and e.get('obligation'):
-                ok = any(e['obligation'] in v for v in viol)
+                import re as _re
+                san=_re.sub(r'[^A-Za-z0-9._#-]','_',e['obligation'])   # VIOLATION lines carry the file-name form of the obligation
+                ok = any(e['obligation'] in v or san in v for v in viol)
             print('%s %-5s %-40s expect=%s got=%s %s'%('ok  ' if ok else 'BAD ', e['prop'], e['name'], e['expect'], 'fail' if failed else 'pass', (viol[0].split('replay=')[1][:110] if viol else '')))
             if not ok: bad+=1
             results.append({'name':e['name'],'expect':e['expect'],'got':'fail' if failed else 'pass','as_expected':bool(ok),'caught_by':(viol[0].split('replay=')[1].split('/')[-1][:120] if viol else '')})
